@@ -64,11 +64,13 @@ pub fn run_c21(args: &Args) -> i32 {
     let line = [(0usize, 1usize), (1, 2)];
     let tri = [(0usize, 1usize), (1, 2), (0, 2)];
     if args.thorough() {
-        models.push(model("sync2[drops=2 edits=1,1 fp=1 restore=1]", 2, &[(0, 1)], START_KINDS, |w| {
+        // (no restore action: a peer whose DOCUMENT goes back to an older snapshot is not part of C21's
+        // statement, which is about connections, lost messages and fresh / persisted sync states)
+        models.push(model("sync2[drops=2 edits=1,1 fp=1]", 2, &[(0, 1)], START_KINDS, |w| {
             w.edits = vec![1, 1];
             w.drops = 2;
             w.fps = 1;
-            w.restores = 1;
+            w.restores = 0;
         }));
         models.push(model("sync3-line[drops=1 edit=1]", 3, &line, &["diverged", "one-ahead", "orphan"], |w| {
             w.edits = vec![1, 0, 0];
@@ -93,7 +95,7 @@ pub fn run_c21(args: &Args) -> i32 {
     };
     let ex = run_models(&rep, args, models, &lim).unwrap_or(false);
     rep.finish(
-        "explicit-state BFS over three real peers in line and triangle topologies (and two peers with two drops): actions generate / deliver / edit / drop(i,j) = both channels cleared (in-flight loss) and both ends reconnect with State::new() or State::decode(State::encode(old)) / cut(i,j) = link removed for good / restore(i) = peer comes back with an older snapshot of its document (thorough) / injected false positive (thorough); oracle in every state: fair completion over the current links goes quiet within 10 rounds and every connected component has equal heads and reads; nobody is left waiting (second completion is silent)",
+        "explicit-state BFS over three real peers in line and triangle topologies (and two peers with two drops): actions generate / deliver / edit / drop(i,j) = both channels cleared (in-flight loss) and both ends reconnect with State::new() or State::decode(State::encode(old)) / cut(i,j) = link removed for good / injected false positive (thorough); oracle in every state: fair completion over the current links goes quiet within 10 rounds and every connected component has equal heads and reads; nobody is left waiting (second completion is silent)",
         &["drop = immediate reconnect; permanently cut links partition the network and components are judged separately"],
         ex,
     )
